@@ -17,6 +17,13 @@ fn vm_pages() -> usize {
     std::fs::read_to_string("/proc/self/statm").ok().and_then(|s| s.split_whitespace().next().and_then(|x| x.parse().ok())).unwrap_or(0)
 }
 
+/// Growth of the address space in bytes, not counting whole 64 MiB units: glibc reserves the heaps of a thread's
+/// malloc arena in units of 64 MiB (HEAP_MAX_SIZE), which says nothing about the code under test; a leaked
+/// region of a file of at most a few MiB shows up in the remainder.
+fn vm_growth(pages0: usize, pages1: usize) -> usize {
+    (pages1.saturating_sub(pages0) * 4096) % (64 << 20)
+}
+
 const LOADERS: [Loader; 4] = [Loader::LoadFull, Loader::LoadMem, Loader::LoadMmap, Loader::Mmap];
 
 pub fn c09(ctx: &Ctx, subj: &dyn DynSubject, ty: &Ty, rep: &mut Report) {
@@ -155,7 +162,7 @@ pub fn c09(ctx: &Ctx, subj: &dyn DynSubject, ty: &Ty, rep: &mut Report) {
                 if maps1 > maps0 {
                     return Err(Fail::new(&format!("failed-load-leaks-mapping:{:?}", loader), format!("{} failing {:?} loads ({}) left {} file mappings behind", reps, loader, cause, maps1 - maps0)).env(env));
                 }
-                if big && data.as_ref().map_or(false, |d| d.len() >= 200_000) && (vm1.saturating_sub(vm0)) * 4096 > 3 * data.as_ref().unwrap().len() {
+                if big && data.as_ref().map_or(false, |d| d.len() >= 200_000) && vm_growth(vm0, vm1) > 3 * data.as_ref().unwrap().len() {
                     return Err(Fail::new(&format!("failed-load-leaks-address-space:{:?}", loader), format!("{} failing {:?} loads ({}) grew the address space by {} KiB (file of {} KiB)", reps, loader, cause, (vm1 - vm0) * 4, data.as_ref().unwrap().len() / 1024)).env(env));
                 }
             }
@@ -203,7 +210,7 @@ pub fn c09(ctx: &Ctx, subj: &dyn DynSubject, ty: &Ty, rep: &mut Report) {
             if maps1 > maps0 {
                 return Err(Fail::new(&format!("dropped-load-leaks-mapping:{:?}", loader), format!("5 successful {:?} loads, each dropped, left {} file mappings behind", loader, maps1 - maps0)).env(env));
             }
-            if big && (vm1.saturating_sub(vm0)) * 4096 > 3 * bytes.len() {
+            if big && vm_growth(vm0, vm1) > 3 * bytes.len() {
                 return Err(Fail::new(&format!("dropped-load-leaks-address-space:{:?}", loader), format!("5 successful {:?} loads, each dropped, grew the address space by {} KiB", loader, (vm1 - vm0) * 4)).env(env));
             }
         }
